@@ -117,7 +117,12 @@ def digests(prop, runfn, seed, idxs):
     out = {}
     for i in idxs:
         r = core.run_isolated(runfn, prop, seed=core.run_seed(seed, prop, i))
-        out[i] = (r.get("status"), r.get("digest") if r.get("status") == "ok" else str(r.get("err"))[-400:])
+        # a run that ends in a violation is compared by that fact only: what a broken tree does on the way (e.g. how deep
+        # an endless recursion gets before Python stops it) may depend on the process, and the violation is confirmed in
+        # a fresh interpreter anyway; on a tree without violations every digest is compared
+        viol = bool(r.get("violations"))
+        out[i] = (r.get("status"), "violation" if viol else
+                  (r.get("digest") if r.get("status") == "ok" else str(r.get("err"))[-400:]))
     return out
 
 
@@ -147,6 +152,9 @@ def determinism_selfcheck(prop, runfn, seed, n=8):
         c = {int(k): tuple(v) for k, v in json.loads(p.stdout.strip().splitlines()[-1]).items()}
     except Exception:
         return {"ok": False, "why": "fresh interpreter produced no digests: " + p.stderr[-500:]}
+    if os.environ.get("TVSIM_DEBUG_DET"):
+        print("A", a, file=sys.stderr)
+        print("C", c, file=sys.stderr)
     same_proc = all(a[i] == b[i] for i in idxs)
     fresh = all(a[i] == c.get(i) for i in idxs)
     bad_status = [i for i in idxs if a[i][0] != "ok"]
